@@ -3,4 +3,1084 @@ import DC.Proofs.Inv
 
 namespace DC.Cache
 
+/-! ### fixed-width decimal digits -/
+
+/-- the low `k` decimal digits of `n`, most significant first, as code points -/
+def dig : Nat → Nat → Str
+  | 0, _ => []
+  | k + 1, n => (48 + n / 10 ^ k % 10) :: dig k n
+
+@[simp] theorem dig_length (k n : Nat) : (dig k n).length = k := by
+  induction k with
+  | zero => rfl
+  | succ k ih => simp [dig, ih]
+
+theorem dig_range (k n : Nat) : ∀ c ∈ dig k n, 48 ≤ c ∧ c ≤ 57 := by
+  induction k with
+  | zero => intro c hc; cases hc
+  | succ k ih =>
+    intro c hc
+    rcases List.mem_cons.1 hc with rfl | hc
+    · omega
+    · exact ih c hc
+
+theorem dig_snoc (k : Nat) : ∀ n, dig (k + 1) n = dig k (n / 10) ++ [48 + n % 10] := by
+  induction k with
+  | zero => intro n; simp [dig]
+  | succ k ih =>
+    intro n
+    have h1 : dig (k + 2) n = (48 + n / 10 ^ (k + 1) % 10) :: dig (k + 1) n := rfl
+    have h2 : dig (k + 1) (n / 10) = (48 + n / 10 / 10 ^ k % 10) :: dig k (n / 10) := rfl
+    rw [h1, h2, ih n, Nat.div_div_eq_div_mul, Nat.pow_succ, Nat.mul_comm 10]
+    rfl
+
+theorem natDigits15_go (k : Nat) : ∀ n acc, natDigits15.go k n acc = dig k n ++ acc := by
+  induction k with
+  | zero => intro n acc; rfl
+  | succ k ih =>
+    intro n acc
+    rw [natDigits15.go, ih, dig_snoc]
+    simp
+
+theorem natDigits15_eq (n : Nat) (h : n < 10 ^ 15) : natDigits15 n = dig 15 n := by
+  unfold natDigits15
+  simp only [h, if_true, natDigits15_go, List.append_nil]
+
+/-! ### parsing the digits back -/
+
+def parseStep (acc : Option Nat) (c : Nat) : Option Nat :=
+  match acc with
+  | none => none
+  | some n => if 48 ≤ c && c ≤ 57 then some (n * 10 + (c - 48)) else none
+
+theorem parseNum_eq (cs : Str) : parseNum cs = if cs.isEmpty then none else cs.foldl parseStep (some 0) := rfl
+
+theorem foldl_parse_dig (k : Nat) : ∀ n a, (dig k n).foldl parseStep (some a) = some (a * 10 ^ k + n % 10 ^ k) := by
+  induction k with
+  | zero => intro n a; simp [dig, Nat.mod_one]
+  | succ k ih =>
+    intro n a
+    have hd : 48 ≤ 48 + n / 10 ^ k % 10 ∧ 48 + n / 10 ^ k % 10 ≤ 57 := by omega
+    simp only [dig, List.foldl_cons, parseStep, hd.1, hd.2, decide_true, Bool.and_self, if_true]
+    rw [ih]
+    congr 1
+    have : n % 10 ^ (k + 1) = n % 10 ^ k + 10 ^ k * (n / 10 ^ k % 10) := by
+      rw [Nat.pow_succ, Nat.mod_mul]
+    rw [this, Nat.pow_succ]
+    generalize 10 ^ k = K
+    generalize n / K % 10 = d
+    rw [Nat.add_sub_cancel_left, Nat.add_mul, Nat.mul_assoc, Nat.mul_comm 10 K, Nat.mul_comm d K]
+    omega
+
+theorem parseNum_dig (k n : Nat) (hk : 0 < k) : parseNum (dig k n) = some (n % 10 ^ k) := by
+  rw [parseNum_eq]
+  have : (dig k n).isEmpty = false := by
+    cases k with
+    | zero => omega
+    | succ k => rfl
+  simp [this, foldl_parse_dig]
+
+/-! ### `afterLastDash` -/
+
+theorem afterLastDash_go_nodash : ∀ (cs acc : Str), (∀ c ∈ cs, c ≠ 45) →
+    afterLastDash.go cs acc = acc ++ cs
+  | [], acc, _ => by simp [afterLastDash.go]
+  | c :: cs, acc, h => by
+    have hc : c ≠ 45 := h c List.mem_cons_self
+    rw [afterLastDash.go]
+    simp only [beq_iff_eq, hc, if_false]
+    rw [afterLastDash_go_nodash cs _ (fun x hx => h x (List.mem_cons_of_mem _ hx))]
+    simp
+
+theorem afterLastDash_go_dash : ∀ (pre ds acc : Str),
+    afterLastDash.go (pre ++ 45 :: ds) acc = afterLastDash.go ds []
+  | [], ds, acc => by simp [afterLastDash.go]
+  | c :: pre, ds, acc => by
+    rw [List.cons_append, afterLastDash.go]
+    split
+    · exact afterLastDash_go_dash pre ds _
+    · exact afterLastDash_go_dash pre ds _
+
+theorem afterLastDash_dash (pre ds : Str) (h : ∀ c ∈ ds, c ≠ 45) :
+    afterLastDash (pre ++ 45 :: ds) = ds := by
+  unfold afterLastDash
+  rw [afterLastDash_go_dash, afterLastDash_go_nodash _ _ h]
+  rfl
+
+/-! ### the queue key of a number -/
+
+/-- numbers that fit the 15-digit field -/
+def Fits (n : Int) : Prop := 0 ≤ n ∧ n < 10 ^ 15
+
+theorem queueKey_text (p : Str) (n : Int) (h : Fits n) :
+    queueKey (some p) n = .text (p ++ 45 :: dig 15 n.toNat) := by
+  unfold queueKey
+  have h0 : ¬ n < 0 := by have := h.1; omega
+  have h1 : n.toNat < 10 ^ 15 := by have := h.1; have := h.2; omega
+  simp only [h0, if_false, natDigits15_eq _ h1]
+
+theorem queueNum_queueKey (p : Option Str) (n : Int) (h : Fits n) :
+    queueNum (queueKey p n) = some n := by
+  cases p with
+  | none => rfl
+  | some p =>
+    rw [queueKey_text p n h]
+    have h1 : n.toNat < 10 ^ 15 := by have := h.1; have := h.2; omega
+    simp only [queueNum]
+    rw [afterLastDash_dash _ _ (fun c hc => by have := dig_range _ _ c hc; omega),
+      parseNum_dig _ _ (by decide), Nat.mod_eq_of_lt h1]
+    have := h.1
+    simp
+    omega
+
+/-! ### order of queue keys -/
+
+theorem lexLt_cons_same (c : Nat) (a b : List Nat) : lexLt (c :: a) (c :: b) = lexLt a b := by
+  simp [lexLt]
+
+theorem lexLt_append_left : ∀ (p a b : List Nat), lexLt (p ++ a) (p ++ b) = lexLt a b
+  | [], _, _ => rfl
+  | c :: p, a, b => by
+    rw [List.cons_append, List.cons_append, lexLt_cons_same, lexLt_append_left p]
+
+theorem digit_cmp_lt (K lm ln dm dn : Nat) (hm : lm < K) (h : dm < dn) :
+    lm + K * dm < ln + K * dn := by
+  have := Nat.mul_le_mul_left K (show dm + 1 ≤ dn from h)
+  rw [Nat.mul_succ] at this
+  omega
+
+theorem lexLt_dig (k : Nat) : ∀ m n, lexLt (dig k m) (dig k n) = decide (m % 10 ^ k < n % 10 ^ k) := by
+  induction k with
+  | zero => intro m n; simp [dig, lexLt, Nat.mod_one]
+  | succ k ih =>
+    intro m n
+    have e : ∀ x, x % 10 ^ (k + 1) = x % 10 ^ k + 10 ^ k * (x / 10 ^ k % 10) := by
+      intro x; rw [Nat.pow_succ, Nat.mod_mul]
+    have hpos : 0 < 10 ^ k := Nat.pow_pos (by decide)
+    have bm := Nat.mod_lt m hpos
+    have bn := Nat.mod_lt n hpos
+    simp only [dig, lexLt, ih, e]
+    generalize 10 ^ k = K at *
+    generalize m / K % 10 = dm
+    generalize n / K % 10 = dn
+    generalize m % K = lm at *
+    generalize n % K = ln at *
+    by_cases h1 : dm < dn
+    · have := digit_cmp_lt K lm ln dm dn bm h1
+      simp [h1, this]
+    · by_cases h2 : dn < dm
+      · have := digit_cmp_lt K ln lm dn dm bn h2
+        have h3 : ¬ (lm + K * dm < ln + K * dn) := by omega
+        simp [h1, h2, h3]
+      · have : dm = dn := by omega
+        subst this
+        simp
+
+theorem SqlVal.lt_text (a b : Str) : SqlVal.lt (.text a) (.text b) = lexLt a b := rfl
+
+theorem SqlVal.lt_int (m n : Int) : SqlVal.lt (.int m) (.int n) = decide (m < n) := by
+  have hpos : (0 : Int) < 2 ^ 1074 := Int.pow_pos (by decide)
+  show (if (1 : Nat) < 1 then true else if (1 : Nat) < 1 then false else
+    (Num.fin (m * 2 ^ 1074)).lt (Num.fin (n * 2 ^ 1074))) = decide (m < n)
+  simp only [Nat.lt_irrefl, if_false, Num.lt]
+  generalize (2 : Int) ^ 1074 = c at hpos
+  rw [decide_eq_decide]
+  exact Int.mul_lt_mul_right hpos
+
+theorem queueKey_lt (p : Option Str) (m n : Int) (hm : Fits m) (hn : Fits n) :
+    (queueKey p m).lt (queueKey p n) = decide (m < n) := by
+  cases p with
+  | none => exact SqlVal.lt_int m n
+  | some p =>
+    rw [queueKey_text p m hm, queueKey_text p n hn, SqlVal.lt_text, lexLt_append_left,
+      lexLt_cons_same, lexLt_dig]
+    have := hm.1; have := hm.2; have := hn.1; have := hn.2
+    rw [Nat.mod_eq_of_lt (by omega), Nat.mod_eq_of_lt (by omega), decide_eq_decide]
+    omega
+
+theorem dig15_zero : dig 15 0 = List.replicate 15 48 := by decide
+theorem dig15_max : dig 15 999999999999999 = List.replicate 15 57 := by decide
+
+theorem fits_zero : Fits 0 := by unfold Fits; omega
+theorem fits_max : Fits 999999999999999 := by unfold Fits; omega
+
+theorem queueRange_fst (p : Option Str) : (queueRange p).1 = queueKey p 0 := by
+  cases p with
+  | none => rfl
+  | some p =>
+    rw [queueKey_text p 0 fits_zero]
+    show SqlVal.text (p ++ 45 :: List.replicate 15 48) = _
+    rw [← dig15_zero]; rfl
+
+theorem queueRange_snd (p : Option Str) : (queueRange p).2 = queueKey p 999999999999999 := by
+  cases p with
+  | none => rfl
+  | some p =>
+    rw [queueKey_text p _ fits_max]
+    show SqlVal.text (p ++ 45 :: List.replicate 15 57) = _
+    rw [← dig15_max]; rfl
+
+theorem sameLength_queueKey (p : Option Str) (n : Int) (h : Fits n) :
+    sameLength p (queueKey p n) = true := by
+  cases p with
+  | none => rfl
+  | some p => rw [queueKey_text p n h]; simp [sameLength]
+
+/-! ### the queue as a sorted list determined by its members -/
+
+/-- the WHERE clause of the queue queries -/
+def qfilter (p : Option Str) (r : Row) : Bool :=
+  inRange (queueRange p).1 (queueRange p).2 r && r.raw && sameLength p r.key
+
+def klt (a b : Row) : Bool := a.key.lt b.key
+
+def qrows (rows : List Row) (p : Option Str) : List Row := isort klt (rows.filter (qfilter p))
+
+theorem queueRows_eq (s : Cache) (p : Option Str) : s.queueRows p = qrows s.rows p := rfl
+
+theorem klt_irrefl (a : Row) : klt a a = false := SqlVal.lt_irrefl _
+theorem klt_trans (a b c : Row) : klt a b = true → klt b c = true → klt a c = true :=
+  SqlVal.lt_trans _ _ _
+
+theorem mem_qrows {rows : List Row} {p : Option Str} {x : Row} :
+    x ∈ qrows rows p ↔ x ∈ rows ∧ qfilter p x = true := by
+  unfold qrows; rw [mem_isort, List.mem_filter]
+
+theorem qfilter_raw {p : Option Str} {x : Row} (h : qfilter p x = true) : x.raw = true := by
+  unfold qfilter at h
+  simp only [Bool.and_eq_true] at h
+  exact h.1.2
+
+theorem qcomparable {rows : List Row} (hu : KeysUnique rows) (hn : ∀ r ∈ rows, r.key ≠ .null)
+    (p : Option Str) :
+    (rows.filter (qfilter p)).Pairwise (fun a b => klt a b = true ∨ klt b a = true) := by
+  have hu' : KeysUnique (rows.filter (qfilter p)) := List.Pairwise.filter _ hu
+  refine List.Pairwise.imp_of_mem ?_ hu'
+  intro a b ha hb hne
+  obtain ⟨ha1, ha2⟩ := List.mem_filter.1 ha
+  obtain ⟨hb1, hb2⟩ := List.mem_filter.1 hb
+  rcases SqlVal.lt_total a.key b.key (hn a ha1) (hn b hb1) with h | h | h
+  · exact Or.inl h
+  · exact Or.inr h
+  · exact absurd ⟨h, (qfilter_raw ha2).trans (qfilter_raw hb2).symm⟩ hne
+
+theorem qrows_sorted {rows : List Row} (hu : KeysUnique rows) (hn : ∀ r ∈ rows, r.key ≠ .null)
+    (p : Option Str) : (qrows rows p).Pairwise (fun a b => klt a b = true) :=
+  isort_sorted_strict klt klt_trans _ (qcomparable hu hn p)
+
+/-- a strictly sorted list with the right members is the queue -/
+theorem qrows_eq_of_mem {rows : List Row} (hu : KeysUnique rows) (hn : ∀ r ∈ rows, r.key ≠ .null)
+    (p : Option Str) (l : List Row) (hl : l.Pairwise (fun a b => klt a b = true))
+    (hm : ∀ x, x ∈ l ↔ x ∈ rows ∧ qfilter p x = true) : qrows rows p = l :=
+  sorted_ext klt klt_irrefl klt_trans _ _ (qrows_sorted hu hn p) hl
+    (fun x => by rw [mem_qrows, hm])
+
+/-- the queue of a filtered table is the filtered queue -/
+theorem qrows_filter {rows : List Row} (hu : KeysUnique rows) (hn : ∀ r ∈ rows, r.key ≠ .null)
+    (p : Option Str) (f : Row → Bool) : qrows (rows.filter f) p = (qrows rows p).filter f := by
+  apply qrows_eq_of_mem (List.Pairwise.filter _ hu) (fun r hr => hn r (List.mem_filter.1 hr).1)
+  · exact List.Pairwise.filter _ (qrows_sorted hu hn p)
+  · intro x
+    rw [List.mem_filter, mem_qrows, List.mem_filter]
+    constructor
+    · rintro ⟨⟨a, b⟩, c⟩; exact ⟨⟨a, c⟩, b⟩
+    · rintro ⟨⟨a, c⟩, b⟩; exact ⟨⟨a, b⟩, c⟩
+
+theorem qrows_filter_id {rows : List Row} (hu : KeysUnique rows) (hn : ∀ r ∈ rows, r.key ≠ .null)
+    (p : Option Str) (f : Row → Bool) (hf : ∀ x ∈ qrows rows p, f x = true) :
+    qrows (rows.filter f) p = qrows rows p := by
+  rw [qrows_filter hu hn, List.filter_eq_self]
+  exact hf
+
+/-! ### queues of different prefixes are disjoint -/
+
+theorem lexLt_between_prefix : ∀ (p a b k : List Nat), lexLt (p ++ a) k = true →
+    lexLt k (p ++ b) = true → ∃ rest, k = p ++ rest
+  | [], _, _, k, _, _ => ⟨k, rfl⟩
+  | x :: p, a, b, [], h1, _ => by simp [lexLt] at h1
+  | x :: p, a, b, y :: k, h1, h2 => by
+    simp only [List.cons_append, lexLt] at h1 h2
+    by_cases hxy : x < y
+    · have : ¬ y < x := by omega
+      simp [hxy, this] at h2
+    · by_cases hyx : y < x
+      · simp [hxy, hyx] at h1
+      · have : x = y := by omega
+        subst this
+        simp only [hxy, if_false] at h1 h2
+        obtain ⟨rest, hr⟩ := lexLt_between_prefix p a b k h1 h2
+        exact ⟨rest, by rw [hr]; rfl⟩
+
+theorem SqlVal.lt_cls {a b : SqlVal} (h : a.lt b = true) : a.cls ≤ b.cls := by
+  unfold SqlVal.lt at h
+  split at h
+  · omega
+  · split at h
+    · cases h
+    · omega
+
+/-- a key in the queue of a text prefix is that prefix followed by 16 code points -/
+theorem qfilter_text {p : Str} {x : Row} (h : qfilter (some p) x = true) :
+    ∃ rest, x.key = .text (p ++ rest) ∧ rest.length = 16 := by
+  unfold qfilter inRange at h
+  simp only [Bool.and_eq_true] at h
+  obtain ⟨⟨⟨h1, h2⟩, -⟩, h3⟩ := h
+  cases hk : x.key with
+  | text cs =>
+    rw [hk] at h1 h2 h3
+    simp only [sameLength, beq_iff_eq] at h3
+    obtain ⟨rest, hr⟩ := lexLt_between_prefix p _ _ cs h1 h2
+    refine ⟨rest, by rw [hr], ?_⟩
+    rw [hr, List.length_append] at h3
+    omega
+  | _ => rw [hk] at h3; simp [sameLength] at h3
+
+theorem qfilter_none {x : Row} (h : qfilter none x = true) : x.key.cls = 1 := by
+  unfold qfilter inRange at h
+  simp only [Bool.and_eq_true] at h
+  obtain ⟨⟨⟨h1, h2⟩, -⟩, -⟩ := h
+  have a := SqlVal.lt_cls h1
+  have b := SqlVal.lt_cls h2
+  have e1 : (queueRange none).1.cls = 1 := rfl
+  have e2 : (queueRange none).2.cls = 1 := rfl
+  omega
+
+theorem qfilter_disjoint {p q : Option Str} (hpq : p ≠ q) {x : Row} (hp : qfilter p x = true)
+    (hq : qfilter q x = true) : False := by
+  cases p with
+  | none =>
+    cases q with
+    | none => exact hpq rfl
+    | some q =>
+      obtain ⟨rest, hr, -⟩ := qfilter_text hq
+      have := qfilter_none hp
+      rw [hr] at this
+      cases this
+  | some p =>
+    cases q with
+    | none =>
+      obtain ⟨rest, hr, -⟩ := qfilter_text hp
+      have := qfilter_none hq
+      rw [hr] at this
+      cases this
+    | some q =>
+      obtain ⟨r1, h1, l1⟩ := qfilter_text hp
+      obtain ⟨r2, h2, l2⟩ := qfilter_text hq
+      rw [h1] at h2
+      injection h2 with h2
+      have hl : p.length = q.length := by
+        have := congrArg List.length h2
+        simp only [List.length_append] at this
+        omega
+      exact hpq (by rw [(List.append_inj h2 hl).1])
+
+theorem qrows_disjoint {rows : List Row} {p q : Option Str} (hpq : p ≠ q) {x : Row}
+    (hp : x ∈ qrows rows p) (hq : x ∈ qrows rows q) : False :=
+  qfilter_disjoint hpq (mem_qrows.1 hp).2 (mem_qrows.1 hq).2
+
+/-! ### transactions, with the configuration and the files -/
+
+theorem fremoveAll_nil (s : Cache) : s.fremoveAll [] = s := rfl
+
+/-- a transaction whose body cannot raise -/
+theorem transact_ok (s : Cache) (body : Cache → Body) (fresh : Option Nat)
+    (hok : ∀ t, (body t).ok = true) :
+    ∃ t, t.rows = s.rows ∧ t.cfg = s.cfg ∧ t.files = s.files ∧ t.depth = s.depth ∧
+      (s.transact body fresh).1.rows = (body t).s.rows ∧
+      (s.transact body fresh).1.cfg = (body t).s.cfg ∧
+      (s.transact body fresh).2 = (body t).out ∧
+      ((body t).cleanup = [] → (s.transact body fresh).1.files = (body t).s.files) := by
+  unfold transact
+  split
+  · cases fresh with
+    | none =>
+      refine ⟨s, rfl, rfl, rfl, rfl, ?_⟩
+      simp [hok]
+    | some f =>
+      refine ⟨{ s with created := s.created ++ [f] }, rfl, rfl, rfl, rfl, ?_⟩
+      simp [hok]
+  · refine ⟨s.log .begin, rfl, rfl, rfl, rfl, ?_⟩
+    simp only [hok, if_true]
+    refine ⟨by rw [fremoveAll_rows]; rfl, by rw [fremoveAll_cfg]; rfl, trivial, fun h => ?_⟩
+    rw [h, fremoveAll_nil]; rfl
+
+/-- a transaction in general: the body runs on a state with the same table, configuration and
+files; if it raises, the table is the body's (nested) or the one before (rolled back) -/
+theorem transact_cases (s : Cache) (body : Cache → Body) (fresh : Option Nat) :
+    ∃ t, t.rows = s.rows ∧ t.cfg = s.cfg ∧ t.depth = s.depth ∧
+      (((body t).ok = true ∧ (s.transact body fresh).1.rows = (body t).s.rows ∧
+        (s.transact body fresh).2 = (body t).out) ∨
+       ((body t).ok = false ∧ ((s.transact body fresh).1.rows = (body t).s.rows ∨
+          (s.transact body fresh).1.rows = s.rows))) := by
+  unfold transact
+  split
+  · cases fresh with
+    | none =>
+      refine ⟨s, rfl, rfl, rfl, ?_⟩
+      cases h : (body s).ok
+      · right; simp [h]
+      · left; simp [h]
+    | some f =>
+      refine ⟨{ s with created := s.created ++ [f] }, rfl, rfl, rfl, ?_⟩
+      simp only
+      cases h : (body { s with created := s.created ++ [f] }).ok
+      · right; simp
+      · left; simp
+  · refine ⟨s.log .begin, rfl, rfl, rfl, ?_⟩
+    simp only
+    cases h : (body (s.log .begin)).ok
+    · right
+      refine ⟨rfl, Or.inr ?_⟩
+      cases fresh <;> simp [restore, takeSnap]
+    · left; simp
+
+theorem fetchRow_snd_congr_q (a b : Cache) (E : Externals) (r : Row) (rd : Bool)
+    (h1 : a.files = b.files) (h2 : a.cfg = b.cfg) :
+    (a.fetchRow E r rd).2 = (b.fetchRow E r rd).2 := by
+  unfold fetchRow
+  cases r.file with
+  | none => simp only [h2]
+  | some f =>
+    simp only
+    split <;> simp [fileGet, h1, h2]
+
+@[simp] theorem fetchRow_files (s : Cache) (E : Externals) (r : Row) (read : Bool) :
+    (s.fetchRow E r read).1.files = s.files := by
+  unfold fetchRow
+  split
+  · simp only; split <;> rfl
+  · rfl
+
+@[simp] theorem fetchRow_cfg (s : Cache) (E : Externals) (r : Row) (read : Bool) :
+    (s.fetchRow E r read).1.cfg = s.cfg := by
+  unfold fetchRow
+  split
+  · simp only; split <;> rfl
+  · rfl
+
+/-! ### one round of `pull` / `peek` -/
+
+def selBody : Cache → Body := fun s => { s := s.logSql "selQueueHead", out := .none }
+
+def delBody (r : Row) (cl : List (Option Nat)) : Cache → Body := fun s =>
+  { s := (s.logSql "selQueueHead").delRow r.rowid, out := .none, cleanup := cl }
+
+def pullSel (s : Cache) : Cache := (s.transact selBody).1
+def pullDel (s : Cache) (r : Row) (cl : List (Option Nat)) : Cache := (s.transact (delBody r cl)).1
+def pullTake (s : Cache) (E : Externals) (r : Row) : Cache :=
+  ((pullDel s r []).fetchRow E r false).1.removeCommitted r.file
+
+def qhead (s : Cache) (p : Option Str) (front : Bool) : Option Row :=
+  if front then (s.queueRows p).head? else lastRow? (s.queueRows p)
+
+theorem pullLoop_succ (E : Externals) (now : Int) (p : Option Str) (front et tg : Bool) (fuel : Nat)
+    (s : Cache) : pullLoop E now p front et tg (fuel + 1) s =
+      match qhead s p front with
+      | none => (pullSel s, defaultFlags et tg)
+      | some r =>
+        if expired now r then pullLoop E now p front et tg fuel (pullDel s r [r.file])
+        else match ((pullDel s r []).fetchRow E r false).2 with
+          | .ioerror => pullLoop E now p front et tg fuel (pullTake s E r)
+          | f => (pullTake s E r, withFlags (.tup [.val (column r.key), fetchedOut f]) et tg r.expT r.tag) := rfl
+
+theorem peekLoop_succ (E : Externals) (now : Int) (p : Option Str) (front et tg : Bool) (fuel : Nat)
+    (s : Cache) : peekLoop E now p front et tg (fuel + 1) s =
+      match qhead s p front with
+      | none => (pullSel s, defaultFlags et tg)
+      | some r =>
+        if expired now r then peekLoop E now p front et tg fuel (pullDel s r [r.file])
+        else match ((pullSel s).fetchRow E r false).2 with
+          | .ioerror => peekLoop E now p front et tg fuel ((pullSel s).fetchRow E r false).1
+          | f => (((pullSel s).fetchRow E r false).1,
+              withFlags (.tup [.val (column r.key), fetchedOut f]) et tg r.expT r.tag) := rfl
+
+theorem pullSel_spec (s : Cache) :
+    (pullSel s).rows = s.rows ∧ (pullSel s).cfg = s.cfg ∧ (pullSel s).files = s.files := by
+  obtain ⟨t, h1, h2, h3, -, h5, h6, -, h8⟩ := transact_ok s selBody none (fun _ => rfl)
+  exact ⟨h5.trans h1, h6.trans h2, (h8 rfl).trans h3⟩
+
+theorem pullDel_rows (s : Cache) (r : Row) (cl : List (Option Nat)) :
+    (pullDel s r cl).rows = s.rows.filter (·.rowid != r.rowid) := by
+  obtain ⟨t, h1, -, -, -, h5, -⟩ := transact_ok s (delBody r cl) none (fun _ => rfl)
+  refine h5.trans ?_
+  show ((t.logSql "selQueueHead").delRowQuiet r.rowid).rows = _
+  rw [delRowQuiet_rows, logSql_rows, h1]
+
+theorem pullDel_nil_spec (s : Cache) (r : Row) :
+    (pullDel s r []).cfg = s.cfg ∧ (pullDel s r []).files = s.files := by
+  obtain ⟨t, -, h2, h3, -, -, h6, -, h8⟩ := transact_ok s (delBody r []) none (fun _ => rfl)
+  refine ⟨h6.trans ?_, (h8 rfl).trans ?_⟩
+  · show ((t.logSql "selQueueHead").delRowQuiet r.rowid).cfg = _
+    rw [delRowQuiet_cfg, logSql_cfg, h2]
+  · show ((t.logSql "selQueueHead").delRowQuiet r.rowid).files = _
+    rw [delRowQuiet_files, logSql_files, h3]
+
+theorem pullTake_rows (s : Cache) (E : Externals) (r : Row) :
+    (pullTake s E r).rows = s.rows.filter (·.rowid != r.rowid) := by
+  unfold pullTake
+  rw [removeCommitted_rows, fetchRow_rows, pullDel_rows]
+
+theorem pullDel_fetch (s : Cache) (E : Externals) (r : Row) :
+    ((pullDel s r []).fetchRow E r false).2 = (s.fetchRow E r false).2 :=
+  fetchRow_snd_congr_q _ _ E r false (pullDel_nil_spec s r).2 (pullDel_nil_spec s r).1
+
+theorem pullSel_fetch (s : Cache) (E : Externals) (r : Row) :
+    ((pullSel s).fetchRow E r false).2 = (s.fetchRow E r false).2 :=
+  fetchRow_snd_congr_q _ _ E r false (pullSel_spec s).2.2 (pullSel_spec s).2.1
+
+theorem qhead_mem {s : Cache} {p : Option Str} {front : Bool} {r : Row}
+    (h : qhead s p front = some r) : r ∈ s.queueRows p := by
+  unfold qhead at h
+  cases front with
+  | true => exact List.mem_of_head? h
+  | false => exact lastRow?_mem h
+
+theorem filter_true' {α} (l : List α) : l.filter (fun _ => true) = l := by
+  rw [List.filter_eq_self]; intro _ _; rfl
+
+/-- `pull` only ever deletes members of the queue it is pulling from -/
+theorem pullLoop_rows (E : Externals) (now : Int) (p : Option Str) (front et tg : Bool) :
+    ∀ (fuel : Nat) (s : Cache), RowidsAsc s.rows →
+      ∃ f : Row → Bool, (pullLoop E now p front et tg fuel s).1.rows = s.rows.filter f ∧
+        ∀ x ∈ s.rows, x ∉ s.queueRows p → f x = true := by
+  intro fuel
+  induction fuel with
+  | zero =>
+    intro s _
+    exact ⟨fun _ => true, by simp [pullLoop, filter_true'], fun _ _ _ => rfl⟩
+  | succ n ih =>
+    intro s hasc
+    -- deleting the head `r` and going on
+    have step : ∀ (r : Row) (s' : Cache), r ∈ s.queueRows p →
+        s'.rows = s.rows.filter (·.rowid != r.rowid) →
+        ∃ f : Row → Bool, (pullLoop E now p front et tg n s').1.rows = s.rows.filter f ∧
+          ∀ x ∈ s.rows, x ∉ s.queueRows p → f x = true := by
+      intro r s' hr hs'
+      have hasc' : RowidsAsc s'.rows := by rw [hs']; exact hasc.filter _
+      obtain ⟨f, hf1, hf2⟩ := ih s' hasc'
+      refine ⟨fun x => (x.rowid != r.rowid) && f x, ?_, ?_⟩
+      · rw [hf1, hs', List.filter_filter]
+        apply List.filter_congr; intro x _; exact Bool.and_comm _ _
+      · intro x hx hnq
+        have hrr : r ∈ s.rows := (mem_qrows.1 hr).1
+        have hne : (x.rowid != r.rowid) = true := by
+          simp only [bne_iff_ne, ne_eq]
+          intro e
+          exact hnq (hasc.inj x hx r hrr e ▸ hr)
+        have hx' : x ∈ s'.rows := by rw [hs']; exact List.mem_filter.2 ⟨hx, hne⟩
+        have hnq' : x ∉ s'.queueRows p := by
+          intro h
+          apply hnq
+          rw [queueRows_eq] at h ⊢
+          exact mem_qrows.2 ⟨hx, (mem_qrows.1 h).2⟩
+        simp only [hne, Bool.true_and]
+        exact hf2 x hx' hnq'
+    have one : ∀ (r : Row), r ∈ s.queueRows p →
+        ∃ f : Row → Bool, s.rows.filter (·.rowid != r.rowid) = s.rows.filter f ∧
+          ∀ x ∈ s.rows, x ∉ s.queueRows p → f x = true := by
+      intro r hr
+      refine ⟨fun x => x.rowid != r.rowid, rfl, ?_⟩
+      intro x hx hnq
+      have hrr : r ∈ s.rows := (mem_qrows.1 hr).1
+      simp only [bne_iff_ne, ne_eq]
+      intro e
+      exact hnq (hasc.inj x hx r hrr e ▸ hr)
+    rw [pullLoop_succ]
+    split
+    · exact ⟨fun _ => true, by simp [(pullSel_spec s).1, filter_true'], fun _ _ _ => rfl⟩
+    · rename_i r hh
+      have hr := qhead_mem hh
+      split
+      · exact step r _ hr (pullDel_rows s r _)
+      · split
+        · exact step r _ hr (pullTake_rows s E r)
+        · simp only [pullTake_rows]
+          exact one r hr
+
+/-! ### deleting one end of the queue -/
+
+theorem filter_rowid_notin {rows l : List Row} (hasc : RowidsAsc rows) (hsub : ∀ x ∈ l, x ∈ rows)
+    {r : Row} (hr : r ∈ rows) (hn : r ∉ l) : l.filter (·.rowid != r.rowid) = l := by
+  rw [List.filter_eq_self]
+  intro x hx
+  simp only [bne_iff_ne, ne_eq]
+  intro e
+  exact hn (hasc.inj x (hsub x hx) r hr e ▸ hx)
+
+theorem queue_del_head {s s' : Cache} (hinv : TableInv s) {p : Option Str} {r : Row} {rest : List Row}
+    (hq : s.queueRows p = r :: rest) (hs' : s'.rows = s.rows.filter (·.rowid != r.rowid)) :
+    s'.queueRows p = rest := by
+  have hsorted := qrows_sorted hinv.tbl.uniq hinv.tbl.nonnull p
+  rw [← queueRows_eq, hq] at hsorted
+  have hsub : ∀ x ∈ r :: rest, x ∈ s.rows := by
+    intro x hx; rw [← hq, queueRows_eq] at hx; exact (mem_qrows.1 hx).1
+  have hnot : r ∉ rest := by
+    intro h
+    have := (List.pairwise_cons.1 hsorted).1 r h
+    rw [klt_irrefl] at this; cases this
+  rw [queueRows_eq, hs', qrows_filter hinv.tbl.uniq hinv.tbl.nonnull, ← queueRows_eq, hq]
+  rw [List.filter_cons]
+  simp only [bne_self_eq_false, Bool.false_eq_true, if_false]
+  exact filter_rowid_notin hinv.tbl.asc (fun x hx => hsub x (List.mem_cons_of_mem _ hx))
+    (hsub r List.mem_cons_self) hnot
+
+theorem queue_del_last {s s' : Cache} (hinv : TableInv s) {p : Option Str} {r : Row} {front : List Row}
+    (hq : s.queueRows p = front ++ [r]) (hs' : s'.rows = s.rows.filter (·.rowid != r.rowid)) :
+    s'.queueRows p = front := by
+  have hsorted := qrows_sorted hinv.tbl.uniq hinv.tbl.nonnull p
+  rw [← queueRows_eq, hq] at hsorted
+  have hsub : ∀ x ∈ front ++ [r], x ∈ s.rows := by
+    intro x hx; rw [← hq, queueRows_eq] at hx; exact (mem_qrows.1 hx).1
+  have hnot : r ∉ front := by
+    intro h
+    have := (List.pairwise_append.1 hsorted).2.2 r h r (by simp)
+    rw [klt_irrefl] at this; cases this
+  rw [queueRows_eq, hs', qrows_filter hinv.tbl.uniq hinv.tbl.nonnull, ← queueRows_eq, hq]
+  rw [List.filter_append, filter_rowid_notin hinv.tbl.asc
+    (fun x hx => hsub x (List.mem_append_left _ hx)) (hsub r (by simp)) hnot]
+  simp
+
+/-! ### membership of a key in the queue range -/
+
+def kfilter (p : Option Str) (k : SqlVal) : Bool :=
+  (queueRange p).1.lt k && k.lt (queueRange p).2 && sameLength p k
+
+theorem qfilter_iff {p : Option Str} {r : Row} :
+    qfilter p r = true ↔ kfilter p r.key = true ∧ r.raw = true := by
+  unfold qfilter kfilter inRange
+  simp only [Bool.and_eq_true]
+  constructor
+  · rintro ⟨⟨⟨a, b⟩, c⟩, d⟩; exact ⟨⟨⟨a, b⟩, d⟩, c⟩
+  · rintro ⟨⟨⟨a, b⟩, d⟩, c⟩; exact ⟨⟨⟨a, b⟩, c⟩, d⟩
+
+theorem kfilter_queueKey (p : Option Str) (n : Int) (h1 : 1 ≤ n) (h2 : n ≤ 999999999999998) :
+    kfilter p (queueKey p n) = true := by
+  have hf : Fits n := by unfold Fits; omega
+  unfold kfilter
+  rw [queueRange_fst, queueRange_snd, queueKey_lt p 0 n fits_zero hf,
+    queueKey_lt p n _ hf fits_max, sameLength_queueKey p n hf]
+  simp only [Bool.and_eq_true, decide_eq_true_eq, and_true]
+  omega
+
+theorem eqv_text {k : SqlVal} {cs : Str} (h : k.eqv (.text cs) = true) : k = .text cs := by
+  cases k <;> simp [SqlVal.eqv] at h
+  rw [h]
+
+theorem kfilter_eqv {p : Option Str} {k k' : SqlVal} (he : k'.eqv k = true) (h : kfilter p k = true) :
+    kfilter p k' = true := by
+  unfold kfilter at h ⊢
+  simp only [Bool.and_eq_true] at h ⊢
+  obtain ⟨⟨h1, h2⟩, h3⟩ := h
+  refine ⟨⟨SqlVal.lt_eqv _ _ _ h1 (SqlVal.eqv_symm _ _ he), SqlVal.eqv_lt _ _ _ he h2⟩, ?_⟩
+  cases p with
+  | none => rfl
+  | some p =>
+    cases k with
+    | text cs => rw [eqv_text he]; exact h3
+    | _ => simp [sameLength] at h3
+
+/-! ### binding the new key -/
+
+theorem utf8enc_cons_isSome (c : Nat) (cs : Str) :
+    (utf8enc (c :: cs)).isSome = (!(isSurrogate c || decide (c ≥ 0x110000)) && (utf8enc cs).isSome) := by
+  rw [utf8enc]
+  split
+  · rename_i h; simp [h]
+  · rename_i h
+    cases utf8enc cs <;> simp [h]
+
+theorem utf8enc_append_isSome : ∀ (a b : Str),
+    (utf8enc (a ++ b)).isSome = ((utf8enc a).isSome && (utf8enc b).isSome)
+  | [], b => by simp [utf8enc]
+  | c :: a, b => by
+    rw [List.cons_append, utf8enc_cons_isSome, utf8enc_cons_isSome, utf8enc_append_isSome a b,
+      Bool.and_assoc]
+
+theorem utf8enc_ascii : ∀ (l : Str), (∀ c ∈ l, c < 128) → (utf8enc l).isSome = true
+  | [], _ => rfl
+  | c :: l, h => by
+    have hc := h c List.mem_cons_self
+    rw [utf8enc_cons_isSome, utf8enc_ascii l (fun x hx => h x (List.mem_cons_of_mem _ hx))]
+    have h1 : isSurrogate c = false := by
+      unfold isSurrogate
+      simp only [Bool.and_eq_false_iff, decide_eq_false_iff_not]
+      left; omega
+    have h2 : ¬ c ≥ 0x110000 := by omega
+    simp [h1, h2]
+
+theorem bindable_queueKey (p : Option Str) (n : Int) (hf : Fits n)
+    (hp : ∀ q, p = some q → (utf8enc q).isSome = true) : bindable (queueKey p n) = true := by
+  cases p with
+  | none =>
+    have := hf.1; have := hf.2
+    show inI64 n = true
+    unfold inI64
+    simp only [Bool.and_eq_true, decide_eq_true_eq]
+    omega
+  | some q =>
+    rw [queueKey_text q n hf]
+    show (utf8enc (q ++ 45 :: dig 15 n.toNat)).isSome = true
+    rw [utf8enc_append_isSome, hp q rfl, utf8enc_ascii]
+    · rfl
+    · intro c hc
+      rcases List.mem_cons.1 hc with rfl | hc
+      · omega
+      · have := dig_range _ _ c hc; omega
+
+/-! ### `push` -/
+
+def pushNum (s : Cache) (p : Option Str) (back : Bool) : Option Int :=
+  match (if back then lastRow? (s.queueRows p) else (s.queueRows p).head?) with
+  | none => some (s.cfg.qorigin : Int)
+  | some r => (queueNum r.key).map (fun n => if back then n + 1 else n - 1)
+
+theorem pushNum_congr {s t : Cache} (hr : t.rows = s.rows) (hc : t.cfg = s.cfg) (p : Option Str)
+    (back : Bool) : pushNum t p back = pushNum s p back := by
+  unfold pushNum
+  rw [queueRows_eq, queueRows_eq, hr, hc]
+
+def pushBody (now : Int) (p : Option Str) (back : Bool) (c : Cols) : Cache → Body := fun s =>
+  match pushNum s p back with
+  | none => { s := s.logSql "selQueueEnd", out := .exc "ValueError", ok := false }
+  | some num =>
+    let s := s.logSql "selQueueEnd"
+    let dbk := queueKey p num
+    if (s.selKey dbk true).isSome then
+      { s := s.log (.sqlFail "insRow"), out := .exc "IntegrityError", ok := false }
+    else if !c.bindable || !bindable dbk then
+      { s := s.log (.sqlFail "insRow"), out := .exc "UnicodeEncodeError", ok := false }
+    else
+    let s := s.insRow dbk true now c
+    { s := (s.cullW now).1, out := .val (column dbk), cleanup := (s.cullW now).2 }
+
+theorem push_eq (s : Cache) (E : Externals) (now : Int) (v : PyVal) (p : Option Str) (back : Bool)
+    (ttl : Option Int) (read : Bool) (tag : SqlVal) :
+    s.push E now v p back ttl read tag =
+      match s.store E v read with
+      | .error _ => (s, .exc "UnicodeEncodeError")
+      | .ok (s1, c) =>
+        s1.transact (fresh := c.file)
+          (pushBody now p back { c with expT := ttl.map (now + ·), tag := tag }) := rfl
+
+theorem pushBody_some {now : Int} {p : Option Str} {back : Bool} {c : Cols} {t : Cache} {num : Int}
+    (hn : pushNum t p back = some num) (hsel : t.selKey (queueKey p num) true = none)
+    (hb : c.bindable = true) (hbk : bindable (queueKey p num) = true) :
+    pushBody now p back c t =
+      { s := (((t.logSql "selQueueEnd").insRow (queueKey p num) true now c).cullW now).1,
+        out := .val (column (queueKey p num)),
+        cleanup := (((t.logSql "selQueueEnd").insRow (queueKey p num) true now c).cullW now).2 } := by
+  unfold pushBody
+  rw [hn]
+  have hsel' : ((t.logSql "selQueueEnd").selKey (queueKey p num) true) = none := hsel
+  simp only [hsel', Option.isSome_none, Bool.false_eq_true, if_false, hb, hbk, Bool.not_true,
+    Bool.or_self]
+
+theorem pushBody_cases (now : Int) (p : Option Str) (back : Bool) (c : Cols) (t : Cache) :
+    ((pushBody now p back c t).ok = false ∧ (pushBody now p back c t).s.rows = t.rows) ∨
+    ∃ num, pushNum t p back = some num ∧ t.selKey (queueKey p num) true = none ∧
+      pushBody now p back c t =
+        { s := (((t.logSql "selQueueEnd").insRow (queueKey p num) true now c).cullW now).1,
+          out := .val (column (queueKey p num)),
+          cleanup := (((t.logSql "selQueueEnd").insRow (queueKey p num) true now c).cullW now).2 } := by
+  cases hn : pushNum t p back with
+  | none => left; unfold pushBody; rw [hn]; exact ⟨rfl, rfl⟩
+  | some num =>
+    cases hsel : t.selKey (queueKey p num) true with
+    | some r =>
+      left; unfold pushBody; rw [hn]
+      have hsel' : ((t.logSql "selQueueEnd").selKey (queueKey p num) true) = some r := hsel
+      simp only [hsel', Option.isSome_some, if_true]
+      exact ⟨trivial, rfl⟩
+    | none =>
+      by_cases hb : c.bindable = true ∧ bindable (queueKey p num) = true
+      · right; exact ⟨num, rfl, hsel, pushBody_some hn hsel hb.1 hb.2⟩
+      · left; unfold pushBody; rw [hn]
+        have hsel' : ((t.logSql "selQueueEnd").selKey (queueKey p num) true) = none := hsel
+        have : (!c.bindable || !bindable (queueKey p num)) = true := by
+          cases h1 : c.bindable <;> cases h2 : bindable (queueKey p num) <;> simp_all
+        simp only [hsel', Option.isSome_none, Bool.false_eq_true, if_false, this, if_true]
+        exact ⟨trivial, rfl⟩
+
+theorem store_spec {s s1 : Cache} {E : Externals} {v : PyVal} {rd : Bool} {c : Cols}
+    (hst : s.store E v rd = .ok (s1, c)) : s1.rows = s.rows ∧ s1.cfg = s.cfg ∧ s1.depth = s.depth := by
+  unfold store at hst
+  split at hst
+  · cases hst
+  · cases hst; exact ⟨rfl, rfl, rfl⟩
+  · cases hst; exact ⟨rfl, rfl, rfl⟩
+
+/-- the row `insRow` appends -/
+def mkRow (rows : List Row) (k : SqlVal) (now : Int) (c : Cols) : Row :=
+  { rowid := maxRowid rows + 1, key := k, raw := true, storeT := now, expT := c.expT, accT := now,
+    accN := 0, tag := c.tag, size := c.size, mode := c.mode, file := c.file, val := c.val }
+
+theorem insRow_rows (t : Cache) (k : SqlVal) (now : Int) (c : Cols) :
+    (t.insRow k true now c).rows = t.rows ++ [mkRow t.rows k now c] := rfl
+
+/-- every way `push` can end, as far as the table is concerned -/
+theorem push_cases (s : Cache) (E : Externals) (now : Int) (v : PyVal) (p : Option Str) (back : Bool)
+    (ttl : Option Int) (tag : SqlVal) :
+    (s.push E now v p back ttl false tag).1.rows = s.rows ∨
+    ∃ (s1 : Cache) (c : Cols) (num : Int) (t : Cache), s.store E v false = .ok (s1, c) ∧ pushNum s p back = some num ∧
+      s.selKey (queueKey p num) true = none ∧ t.rows = s.rows ∧ t.cfg = s.cfg ∧
+      (s.push E now v p back ttl false tag).1.rows =
+        ((t.insRow (queueKey p num) true now { c with expT := ttl.map (now + ·), tag := tag }).cullW now).1.rows ∧
+      (s.push E now v p back ttl false tag).2 = .val (column (queueKey p num)) := by
+  rw [push_eq]
+  cases hst : s.store E v false with
+  | error e => left; rfl
+  | ok sc =>
+    obtain ⟨s1, c⟩ := sc
+    obtain ⟨h1, h2, -⟩ := store_spec hst
+    simp only
+    obtain ⟨t, ht1, ht2, -, hcase⟩ := transact_cases s1
+      (pushBody now p back { c with expT := ttl.map (now + ·), tag := tag }) c.file
+    rcases pushBody_cases now p back { c with expT := ttl.map (now + ·), tag := tag } t with
+      ⟨hok, hrows⟩ | ⟨num, hn, hsel, hbody⟩
+    · left
+      rcases hcase with ⟨hok', -⟩ | ⟨-, h | h⟩
+      · rw [hok] at hok'; cases hok'
+      · rw [h, hrows, ht1, h1]
+      · rw [h, h1]
+    · right
+      refine ⟨s1, c, num, t.logSql "selQueueEnd", rfl, ?_, ?_, ht1.trans h1, ht2.trans h2, ?_⟩
+      · rw [← hn]; exact (pushNum_congr (ht1.trans h1) (ht2.trans h2) p back).symm
+      · rw [← hsel]; exact (selKey_congr (ht1.trans h1) _ _).symm
+      · rcases hcase with ⟨-, hr, ho⟩ | ⟨hok, -⟩
+        · rw [hr, ho, hbody]; exact ⟨rfl, rfl⟩
+        · rw [hbody] at hok; cases hok
+
+/-- `push` when nothing stands in the way of the insert -/
+theorem push_ok (s : Cache) (E : Externals) (now : Int) (v : PyVal) (p : Option Str) (back : Bool)
+    (ttl : Option Int) (tag : SqlVal) {s1 : Cache} {c : Cols} {num : Int}
+    (hst : s.store E v false = .ok (s1, c)) (hn : pushNum s p back = some num)
+    (hsel : s.selKey (queueKey p num) true = none)
+    (hb : ({ c with expT := ttl.map (now + ·), tag := tag } : Cols).bindable = true)
+    (hbk : bindable (queueKey p num) = true) :
+    ∃ t : Cache, t.rows = s.rows ∧ t.cfg = s.cfg ∧
+      (s.push E now v p back ttl false tag).1.rows =
+        ((t.insRow (queueKey p num) true now { c with expT := ttl.map (now + ·), tag := tag }).cullW now).1.rows ∧
+      (s.push E now v p back ttl false tag).2 = .val (column (queueKey p num)) := by
+  rw [push_eq, hst]
+  obtain ⟨h1, h2, -⟩ := store_spec hst
+  simp only
+  obtain ⟨t, ht1, ht2, -, hcase⟩ := transact_cases s1
+    (pushBody now p back { c with expT := ttl.map (now + ·), tag := tag }) c.file
+  have hn' : pushNum t p back = some num := by
+    rw [pushNum_congr (ht1.trans h1) (ht2.trans h2)]; exact hn
+  have hsel' : t.selKey (queueKey p num) true = none := by
+    rw [selKey_congr (ht1.trans h1)]; exact hsel
+  have hbody := pushBody_some (now := now) hn' hsel' hb hbk
+  refine ⟨t.logSql "selQueueEnd", ht1.trans h1, ht2.trans h2, ?_⟩
+  rcases hcase with ⟨-, hr, ho⟩ | ⟨hok, -⟩
+  · rw [hr, ho, hbody]; exact ⟨rfl, rfl⟩
+  · rw [hbody] at hok; cases hok
+
+/-- the lazy cull of a write removes nothing when cull_limit is 0, or the policy is 'none' and
+nothing is expired -/
+theorem cullW_quiet (t : Cache) (now : Int)
+    (h : t.cfg.cullLimit = 0 ∨ (t.cfg.policy = .none ∧ ∀ r ∈ t.rows, expired now r = false)) :
+    (t.cullW now).1.rows = t.rows := by
+  by_cases h0 : t.cfg.cullLimit = 0
+  · unfold cullW; simp [h0]
+  · rcases h with h | ⟨hp, he⟩
+    · exact absurd h h0
+    · have hE : t.selExpired now t.cfg.cullLimit = [] := by
+        unfold selExpired
+        have : t.rows.filter (expired now) = [] :=
+          List.filter_eq_nil_iff.2 (fun r hr => by simp [he r hr])
+        rw [this]; simp [isort]
+      rw [cullW_eq t now h0, hE]
+      simp only [List.isEmpty_nil, if_true]
+      unfold cullTail
+      simp [h0, hp]
+
+theorem insRow_cullW_quiet {s t : Cache} (ht1 : t.rows = s.rows) (ht2 : t.cfg = s.cfg) (now : Int)
+    (k : SqlVal) (c : Cols)
+    (hq : s.cfg.cullLimit = 0 ∨ (s.cfg.policy = .none ∧ ∀ r ∈ s.rows, expired now r = false))
+    (hc : ∀ e, c.expT = some e → ¬ e < now) :
+    ((t.insRow k true now c).cullW now).1.rows = s.rows ++ [mkRow s.rows k now c] := by
+  have hcfg : (t.insRow k true now c).cfg = s.cfg := ht2
+  rw [cullW_quiet, insRow_rows, ht1]
+  rw [hcfg, insRow_rows, ht1]
+  rcases hq with h | ⟨h1, h2⟩
+  · exact Or.inl h
+  · refine Or.inr ⟨h1, ?_⟩
+    intro r hr
+    rcases List.mem_append.1 hr with hr | hr
+    · exact h2 r hr
+    · simp only [List.mem_singleton] at hr
+      subst hr
+      unfold expired
+      show (match c.expT with | none => false | some t => decide (t < now)) = false
+      cases he : c.expT with
+      | none => rfl
+      | some e => simpa using hc e he
+
+/-- the number `push` picks, under the well-formedness of the queue -/
+theorem pushNum_spec (s : Cache) (p : Option Str) (back : Bool) (hinv : TableInv s)
+    (hq : ∀ r ∈ s.queueRows p, ∃ n : Int, queueNum r.key = some n ∧ queueKey p n = r.key ∧
+      1 ≤ n ∧ n ≤ 999999999999998)
+    (hor : 1 ≤ s.cfg.qorigin ∧ s.cfg.qorigin ≤ 999999999999998) :
+    ∃ num, pushNum s p back = some num ∧ Fits num ∧
+      ((∀ r ∈ s.queueRows p, ∀ n, queueNum r.key = some n → 2 ≤ n ∧ n ≤ 999999999999997) →
+        1 ≤ num ∧ num ≤ 999999999999998) ∧
+      (∀ x ∈ s.queueRows p, if back then x.key.lt (queueKey p num) = true
+        else (queueKey p num).lt x.key = true) := by
+  have hsorted := qrows_sorted hinv.tbl.uniq hinv.tbl.nonnull p
+  rw [← queueRows_eq] at hsorted
+  cases back with
+  | false =>
+    cases hql : s.queueRows p with
+    | nil =>
+      refine ⟨(s.cfg.qorigin : Int), by unfold pushNum; rw [hql]; rfl, ?_, fun _ => ?_, ?_⟩
+      · unfold Fits; omega
+      · omega
+      · intro x hx; cases hx
+    | cons r rest =>
+      rw [hql] at hsorted hq
+      obtain ⟨n, hn1, hn2, hn3, hn4⟩ := hq r List.mem_cons_self
+      have hfn : Fits n := by unfold Fits; omega
+      have hfm : Fits (n - 1) := by unfold Fits; omega
+      refine ⟨n - 1, by unfold pushNum; rw [hql]; simp [hn1], hfm, fun hroom => ?_, ?_⟩
+      · have := hroom r List.mem_cons_self n hn1; omega
+      · intro x hx
+        simp only [Bool.false_eq_true, if_false]
+        have hr : (queueKey p (n - 1)).lt r.key = true := by
+          rw [← hn2, queueKey_lt p _ _ hfm hfn]; simp; omega
+        rcases List.mem_cons.1 hx with rfl | hx
+        · exact hr
+        · exact SqlVal.lt_trans _ _ _ hr ((List.pairwise_cons.1 hsorted).1 x hx)
+  | true =>
+    rcases List.eq_nil_or_concat (s.queueRows p) with hql | ⟨front, r, hql⟩
+    · refine ⟨(s.cfg.qorigin : Int), by unfold pushNum; rw [hql]; rfl, ?_, fun _ => ?_, ?_⟩
+      · unfold Fits; omega
+      · omega
+      · intro x hx; rw [hql] at hx; cases hx
+    · rw [List.concat_eq_append] at hql
+      rw [hql] at hsorted hq
+      obtain ⟨n, hn1, hn2, hn3, hn4⟩ := hq r (by simp)
+      have hfn : Fits n := by unfold Fits; omega
+      have hfm : Fits (n + 1) := by unfold Fits; omega
+      refine ⟨n + 1, by unfold pushNum lastRow?; rw [hql]; simp [hn1], hfm, fun hroom => ?_, ?_⟩
+      · have := hroom r (by rw [hql]; simp) n hn1; omega
+      · intro x hx
+        rw [hql] at hx
+        simp only [if_true]
+        have hr : r.key.lt (queueKey p (n + 1)) = true := by
+          rw [← hn2, queueKey_lt p _ _ hfn hfm]; simp; omega
+        rcases List.mem_append.1 hx with hx | hx
+        · exact SqlVal.lt_trans _ _ _ ((List.pairwise_append.1 hsorted).2.2 x hx r (by simp)) hr
+        · simp only [List.mem_singleton] at hx; subst hx; exact hr
+
+/-- no row already carries the new key: it would be a queue member at or beyond the end -/
+theorem selKey_new_none (s : Cache) (p : Option Str) (num : Int) (h1 : 1 ≤ num)
+    (h2 : num ≤ 999999999999998) (back : Bool)
+    (hord : ∀ x ∈ s.queueRows p, if back then x.key.lt (queueKey p num) = true
+      else (queueKey p num).lt x.key = true) :
+    s.selKey (queueKey p num) true = none := by
+  unfold selKey
+  apply List.find?_eq_none.2
+  intro x hx hkm
+  simp only [keyMatch, Bool.and_eq_true, beq_iff_eq] at hkm
+  obtain ⟨he, hraw⟩ := hkm
+  have hxq : x ∈ s.queueRows p := by
+    rw [queueRows_eq]
+    exact mem_qrows.2 ⟨hx, qfilter_iff.2 ⟨kfilter_eqv he (kfilter_queueKey p num h1 h2), hraw⟩⟩
+  have := hord x hxq
+  cases back with
+  | true =>
+    simp only [if_true] at this
+    rw [SqlVal.eqv_not_lt _ _ he] at this; cases this
+  | false =>
+    simp only [Bool.false_eq_true, if_false] at this
+    rw [SqlVal.eqv_not_lt _ _ (SqlVal.eqv_symm _ _ he)] at this; cases this
+
+/-! ### the queue after an insert -/
+
+theorem insRow_asc (t : Cache) (k : SqlVal) (raw : Bool) (now : Int) (c : Cols)
+    (h : RowidsAsc t.rows) : RowidsAsc (t.insRow k raw now c).rows := by
+  show RowidsAsc (t.rows ++ [_])
+  unfold RowidsAsc
+  rw [List.pairwise_append]
+  refine ⟨h, by simp, ?_⟩
+  intro a ha b hb
+  simp only [List.mem_singleton] at hb
+  subst hb
+  have := le_maxRowid t.rows a ha
+  show a.rowid < maxRowid t.rows + 1
+  omega
+
+/-- a key of queue `p` is not in the range of any other queue `q` — whatever its number -/
+theorem qfilter_other {p q : Option Str} (hpq : p ≠ q) (num : Int) (hf : Fits num) (r : Row)
+    (hk : r.key = queueKey p num) : qfilter q r = false := by
+  cases h : qfilter q r with
+  | false => rfl
+  | true =>
+    exfalso
+    cases q with
+    | none =>
+      have hc := qfilter_none h
+      cases p with
+      | none => exact hpq rfl
+      | some p' =>
+        rw [hk, queueKey_text p' num hf] at hc
+        cases hc
+    | some q' =>
+      obtain ⟨rest, hr, hl⟩ := qfilter_text h
+      cases p with
+      | none =>
+        rw [hk] at hr
+        cases hr
+      | some p' =>
+        rw [hk, queueKey_text p' num hf] at hr
+        injection hr with hr
+        have := (List.append_inj' hr (by simp [hl])).1
+        exact hpq (by rw [this])
+
+theorem qrows_append_notin (rows : List Row) (r : Row) (p : Option Str) (hr : qfilter p r = false) :
+    qrows (rows ++ [r]) p = qrows rows p := by
+  unfold qrows
+  rw [List.filter_append]
+  simp [hr]
+
+theorem qrows_append_back {rows : List Row} (r : Row) (hu : KeysUnique (rows ++ [r]))
+    (hn : ∀ x ∈ rows ++ [r], x.key ≠ .null) (p : Option Str) (hr : qfilter p r = true)
+    (hgt : ∀ x ∈ qrows rows p, klt x r = true) : qrows (rows ++ [r]) p = qrows rows p ++ [r] := by
+  have hu0 : KeysUnique rows := (List.pairwise_append.1 hu).1
+  have hn0 : ∀ x ∈ rows, x.key ≠ .null := fun x hx => hn x (List.mem_append_left _ hx)
+  apply qrows_eq_of_mem hu hn
+  · rw [List.pairwise_append]
+    refine ⟨qrows_sorted hu0 hn0 p, by simp, ?_⟩
+    intro a ha b hb
+    simp only [List.mem_singleton] at hb; subst hb
+    exact hgt a ha
+  · intro x
+    simp only [List.mem_append, List.mem_singleton, mem_qrows]
+    constructor
+    · rintro (⟨a, b⟩ | rfl)
+      · exact ⟨Or.inl a, b⟩
+      · exact ⟨Or.inr rfl, hr⟩
+    · rintro ⟨a | rfl, b⟩
+      · exact Or.inl ⟨a, b⟩
+      · exact Or.inr rfl
+
+theorem qrows_append_front {rows : List Row} (r : Row) (hu : KeysUnique (rows ++ [r]))
+    (hn : ∀ x ∈ rows ++ [r], x.key ≠ .null) (p : Option Str) (hr : qfilter p r = true)
+    (hlt : ∀ x ∈ qrows rows p, klt r x = true) : qrows (rows ++ [r]) p = r :: qrows rows p := by
+  have hu0 : KeysUnique rows := (List.pairwise_append.1 hu).1
+  have hn0 : ∀ x ∈ rows, x.key ≠ .null := fun x hx => hn x (List.mem_append_left _ hx)
+  apply qrows_eq_of_mem hu hn
+  · rw [List.pairwise_cons]
+    exact ⟨hlt, qrows_sorted hu0 hn0 p⟩
+  · intro x
+    rw [List.mem_cons, mem_qrows, List.mem_append, List.mem_singleton]
+    constructor
+    · rintro (rfl | ⟨a, b⟩)
+      · exact ⟨Or.inr rfl, hr⟩
+      · exact ⟨Or.inl a, b⟩
+    · rintro ⟨a | rfl, b⟩
+      · exact Or.inr ⟨a, b⟩
+      · exact Or.inl rfl
+
 end DC.Cache
